@@ -549,6 +549,51 @@ func concurrentHistory(seed int64, kind string, weighted bool, selectors, update
 	}
 }
 
+// racingAdds: several goroutines add the SAME endpoint to a selector at the same moment.  Whatever
+// the interleaving, the endpoint is a member once: exactly one Add succeeds, one Remove takes it out
+// again, and after that no selection returns it.
+func racingAdds(kind string, weighted bool, rounds int) {
+	a, b := selref.EP("10.4.0.1", 10, 1), selref.EP("10.4.0.2", 20, 1)
+	for round := 0; round < rounds; round++ {
+		sel := newSelector(kind, weighted)
+		sel.Refresh([]endpoint.Endpoint{a, b})
+		x := selref.EP(fmt.Sprintf("10.4.1.%d", 1+round%200), 30, 1)
+		const g = 4
+		var wg sync.WaitGroup
+		start := make(chan struct{})
+		var okAdds atomic.Int32
+		for i := 0; i < g; i++ {
+			wg.Add(1)
+			go func() {
+				defer wg.Done()
+				<-start
+				if sel.Add(x) == nil {
+					okAdds.Add(1)
+				}
+			}()
+		}
+		close(start)
+		wg.Wait()
+		rep.Eval(1)
+		wit := map[string]interface{}{"selector": kind, "weighted": weighted, "round": round, "racing_adds": g, "adds_that_succeeded": okAdds.Load(), "endpoint": x.Host}
+		if okAdds.Load() != 1 {
+			rep.Violation("not-linearizable-membership", kind+":racing-adds", fmt.Sprintf("%d of %d simultaneous Add(%s) calls succeeded; in every order of them exactly one does", okAdds.Load(), g, x.Host), wit)
+			return
+		}
+		if err := sel.Remove(x); err != nil {
+			rep.Violation("membership-error", kind+":racing-adds", fmt.Sprintf("Remove(%s) after the racing adds failed: %v", x.Host, err), wit)
+			return
+		}
+		for k := 0; k < 64; k++ {
+			if e, err := sel.Select(selref.Msg{Code: uint32(k) * 0x9e3779b1, Hash: true}); err == nil && e.Host == x.Host {
+				rep.Violation("non-member-selected", kind+":racing-adds", fmt.Sprintf("Select returned %s after it had been removed (it was added by %d racing goroutines)", x.Host, g), wit)
+				return
+			}
+		}
+	}
+	rep.Distinct(fmt.Sprintf("racing-adds|%s|%v", kind, weighted))
+}
+
 // concurrentRotation: G goroutines x m selections on an unchanged unweighted round-robin set.
 func concurrentRotation(n, g, per int) {
 	sel := roundrobin.New(false)
@@ -818,6 +863,11 @@ func childMain() {
 			}
 			concurrentStress(kind, w, d)
 			independentInstances(kind, w, d)
+			rr := 2500
+			if thorough {
+				rr = 40000
+			}
+			racingAdds(kind, w, rr)
 		}
 	}
 	for _, c := range [][3]int{{1, 4, 1000}, {2, 8, 5000}, {3, 6, 5000}, {4, 8, 50000}, {7, 14, 10000}, {64, 16, 64000}} {
